@@ -510,7 +510,8 @@ class LoadReferencesFlow(ParamFlow):
                               min_length=st.minlen, max_length=st.maxlen))
         st.cp = cp
         st.args = [st.argsobj]
-        st.kwargs = dict(load_genome=e.bool('load_genome'), load_canonical_peptides=True,
+        st.lcp = e.bool('load_canonical_peptides')
+        st.kwargs = dict(load_genome=e.bool('load_genome'), load_canonical_peptides=st.lcp,
                          load_proteome=e.bool('load_proteome'), invalid_protein_as_noncoding=e.bool('ipan2'),
                          check_protein_coding=e.bool('cpc'), cleavage_params=cp)
         return st
@@ -519,13 +520,17 @@ class LoadReferencesFlow(ParamFlow):
         built = [x for x in st.calls if x[0] == 'create_unique_peptide_pool']
         if built:
             self.check_flow(I, built[0][2], st.cp, 'on-the-fly-pool')
-            I.e.prove('C10/O6/load_references/on-the-fly-only-without-index-dir', z3.Not(st.use_index))
-        else:
+            I.e.prove('C10/O6/load_references/on-the-fly-only-without-index-dir-and-when-a-pool-is-wanted', z3.And(z3.Not(st.use_index), st.lcp))
+            I.e.prove('C10/O6/load_references/returns-the-pool', isinstance(ret[3], SymObj) and ret[3].cls == 'Pool')
+        elif st.loaded:
             I.e.prove('C10/O6/load_references/index-pool-looked-up-by-the-run-parameters',
-                      len(st.loaded) == 1 and st.loaded[0] is st.cp)
-            I.e.prove('C12/load_references/validated-before-any-load',
-                      st.calls and st.calls[0][0] == 'validate_metadata')
-        I.e.prove('C10/O6/load_references/returns-the-pool', isinstance(ret[3], SymObj) and ret[3].cls == 'Pool')
+                      z3.And(st.use_index, st.lcp, len(st.loaded) == 1 and st.loaded[0] is st.cp))
+            I.e.prove('C10/O6/load_references/returns-the-pool', isinstance(ret[3], SymObj) and ret[3].cls == 'Pool')
+        else:
+            I.e.prove('C10/O6/load_references/no-pool-only-when-none-is-wanted', z3.And(z3.Not(st.lcp), ret[3] is None))
+        # whatever is loaded from an index directory is loaded only after its metadata (versions) was validated
+        I.e.prove('C12/load_references/index-validated-before-anything-is-loaded-from-it',
+                  z3.Implies(st.use_index, bool(st.calls) and st.calls[0][0] == 'validate_metadata'))
         # the coding status of the annotation is (re)computed against the loaded proteome with the caller's
         # invalid_protein_as_noncoding: with raw files whenever a proteome is read, with an index only when asked
         ipan = st.kwargs['invalid_protein_as_noncoding']
@@ -537,7 +542,9 @@ class LoadReferencesFlow(ParamFlow):
             I.e.prove('C06/load_references/invalid-protein-as-noncoding-reaches-the-check-unchanged',
                       as_bool(I.truth(flag)) == ipan if not isinstance(flag, bool) else z3.BoolVal(flag) == ipan)
         elif ok:
-            I.e.prove('C06/load_references/no-check-only-from-an-index-without-the-flag', z3.And(st.use_index, z3.Not(ipan)))
+            lp, cpc = st.kwargs['load_proteome'], st.kwargs['check_protein_coding']
+            I.e.prove('C06/load_references/no-check-only-without-the-flag-from-an-index-or-when-no-proteome-is-read',
+                      z3.And(z3.Not(ipan), z3.Or(st.use_index, z3.Not(z3.Or(lp, st.lcp, cpc)))))
 
     def post_raise(self, I, st, exc):
         I.e.prove('C10/O6/load_references/no-raise-expected-with-proteome-given', False)
